@@ -113,16 +113,21 @@ def store_sequences(run, exprs, descr):
     for i in range(n):
         d = scratch(f"store-{i}")
         path = d / "profile.cfg"
-        pf = profile.Profile(path)
-        ops, results = ["PNew"], ["Ok None"]
-        hist = ["new"]
+        # two profile objects alive on the same file, used interleaved (a
+        # GUI and a batch run, or fit_perform's own objects): every operation
+        # goes through the file
+        objs = [profile.Profile(path), profile.Profile(path)]
+        ops, results = ["PNew", "PNew"], ["Ok None", "Ok None"]
+        hist = ["new", "new"]
         for _ in range(rng.randint(2, 9)):
             r = rng.random()
+            which = rng.randrange(2)
+            pf = objs[which]
             if r < 0.5:
                 k = rng.choice(list(DOMAIN))
                 v = copy.deepcopy(rng.choice(DOMAIN[k]))
                 ops.append(f"PSet {cs(k)} {cs(jtxt(v))}")
-                hist.append(["set", k, v])
+                hist.append(["set", k, v, which])
                 try:
                     pf[k] = v
                     results.append("Ok None")
@@ -132,14 +137,14 @@ def store_sequences(run, exprs, descr):
                 k = rng.choice(list(profile.DEFAULTS) + ["fit param E value",
                                                          "no such key"])
                 ops.append(f"PGet {cs(k)}")
-                hist.append(["get", k])
+                hist.append(["get", k, which])
                 try:
                     v = pf[k]
                     results.append(f"Ok (Some {cs(jtxt(v))})")
                 except KeyError:
                     results.append("Err KeyError")
             else:
-                pf = profile.Profile(path)
+                objs[which] = profile.Profile(path)
                 ops.append("PNew")
                 results.append("Ok None")
                 hist.append("new")
